@@ -1,6 +1,7 @@
 import CobyqaVerif.Alg.Solve
 import CobyqaVerif.Props.C04
 import CobyqaVerif.Alg.Tcg
+import CobyqaVerif.Alg.Cauchy
 import CobyqaVerif.Model.Arith
 /-!
 Exact (rational) driver for the algebra of the models: `lake env lean --run DriverAlg.lean`.
@@ -293,6 +294,21 @@ def doTcg (n fuel : ℕ) (parts : List String) : String :=
     | _, _, _, _, _ => "bad-op"
   | _ => "bad-op"
 
+/-! `cauchy n | const ; g ; H ; xl ; xu ; delta ; c1 ; c2 ; sn1 sn2`  -> `ok step..`: `Cobyqa.Cauchy.cauchyGeometry` for the two
+directions `c1`, `c2` (the Cauchy directions of the two calls of `_cauchy_geom`) and their norms -/
+def doCauchy (n : ℕ) (parts : List String) : String :=
+  match parts with
+  | [k, g, H, lo, hi, d, c1, c2, sn] =>
+    match ratsOf k, ratsOf g, ratsOf H, optsOf lo, optsOf hi, ratsOf d, ratsOf c1, ratsOf c2, ratsOf sn with
+    | some k, some g, some H, some lo, some hi, some d, some c1, some c2, some sn =>
+      if k.size ≠ 1 || g.size ≠ n || H.size ≠ n * n || lo.size ≠ n || hi.size ≠ n || d.size ≠ 1 || c1.size ≠ n || c2.size ≠ n || sn.size ≠ 2 then "bad-op" else
+      let P : Cobyqa.Cauchy.GProb n Rat :=
+        { const := k[0]!, g := vecOf g, H := fun i j => H[i.val * n + j.val]!, xl := fun i => lo[i.val]!, xu := fun i => hi[i.val]!, delta := d[0]! }
+      let st := Cobyqa.Cauchy.cauchyGeometry P (vecOf c1) (vecOf c2) sn[0]! sn[1]!
+      "ok " ++ " ".intercalate ((listFin n).map fun i => showRat (st i))
+    | _, _, _, _, _, _, _, _, _ => "bad-op"
+  | _ => "bad-op"
+
 def handleAlg (line : String) : String :=
   match line.splitOn "|" with
   | [h, body] =>
@@ -303,6 +319,7 @@ def handleAlg (line : String) : String :=
     | ["kkt", n, m, me, r] => match n.toNat?, m.toNat?, me.toNat?, r.toNat? with
       | some n, some m, some me, some r => doKkt n m me r parts | _, _, _, _ => "bad-op"
     | ["tcg", n, fuel] => match n.toNat?, fuel.toNat? with | some n, some f => doTcg n f parts | _, _ => "bad-op"
+    | ["cauchy", n] => match n.toNat? with | some n => doCauchy n parts | _ => "bad-op"
     | ["ball", n] => match n.toNat? with | some n => doBall n parts | _ => "bad-op"
     | _ => "bad-op"
   | _ => "bad-op"
